@@ -4,7 +4,7 @@
                         relations from the live issubclass matrix T), lifted through containers.
    nss A v v'         : replacing the input v by the stored value v' neither split a string into a collection
                         of its pieces nor joined a collection into a string; [A] lists (input class, result
-                        class) conversions that are tolerated (empty for the property at full strength).
+                        class) conversions that are tolerated (empty, [no_pairs], for the property).
    arity_ok t v       : the only thing C21 lets a run-time value fail on: the length of a fixed-length tuple. *)
 From Pydra Require Import Base.Prelude Model.Typing.
 
@@ -101,17 +101,6 @@ End NoStrSeq.
 
 Definition no_pairs : cls -> cls -> bool := fun _ _ => false.
 
-(* the conversions the pinned tree performs (finding F20): str/bytes -> set/frozenset, bytes -> list/tuple,
-   set/frozenset -> str (its repr), list/tuple/set/frozenset -> bytes *)
-Definition f20_pairs (a b : cls) : bool :=
-  match a, b with
-  | (CStr | CBytes), (CSet | CFrozenset) => true
-  | CBytes, (CList | CTuple) => true
-  | (CSet | CFrozenset), CStr => true
-  | (CList | CTuple | CSet | CFrozenset), CBytes => true
-  | _, _ => false
-  end.
-
 (* ------------------------------------------------------------------ C21: side conditions on (target type, value) *)
 (* what iterating the value yields: the items of a list/tuple/set, the keys of a dict *)
 Definition items_of (v : val) : list val :=
@@ -139,26 +128,6 @@ Fixpoint arity_ok (t : ty) (v : val) {struct t} : bool :=
       | _ => true
       end
   | TUnion ts => forallb (fun a => arity_ok a v) ts
-  end.
-
-(* finding F21a: a collection meets a [bytes] position of the target type *)
-Fixpoint bytes_hit (t : ty) (v : val) {struct t} : bool :=
-  match t with
-  | TBase c => cls_eqb c CBytes && is_coll v
-  | TList a | TSet _ a | TTupleVar a => existsb (bytes_hit a) (items_of v)
-  | TMulti a => bytes_hit a v || existsb (bytes_hit a) (items_of v)
-  | TTuple ts =>
-      (fix go (ts : list ty) (l : list val) : bool :=
-         match ts, l with
-         | a :: r, x :: xs => bytes_hit a x || go r xs
-         | _, _ => false
-         end) ts (items_of v)
-  | TDict k x =>
-      match v with
-      | VDict kv => existsb (fun p => bytes_hit k (fst p) || bytes_hit x (snd p)) kv
-      | _ => false
-      end
-  | TUnion ts => existsb (fun a => bytes_hit a v) ts
   end.
 
 (* may storing v under type t leave an unhashable object? *)
@@ -200,13 +169,20 @@ Fixpoint unhash_hit (t : ty) (v : val) {struct t} : bool :=
   end.
 
 (* ------------------------------------------------------------------ the domain of the idempotence theorem *)
+Definition is_none_ty (t : ty) : bool := match t with TBase CNone => true | _ => false end.
+
+(* no Union other than Optional[...] (a two-armed union with None) *)
 Fixpoint union_free (t : ty) : bool :=
   match t with
   | TBase _ => true
   | TList a | TTupleVar a | TSet _ a | TMulti a => union_free a
   | TTuple ts => forallb union_free ts
   | TDict k x => union_free k && union_free x
-  | TUnion _ => false
+  | TUnion ts =>
+      match ts with
+      | [a; b] => (is_none_ty b && union_free a) || (is_none_ty a && union_free b)
+      | _ => false
+      end
   end.
 
 (* ------------------------------------------------------------------ the domain of the C21 theorem (target side) *)
@@ -223,10 +199,10 @@ Fixpoint hashable_ty (t : ty) : bool :=
   | _ => false
   end.
 
-(* no [bytes] position (finding F21a); set items and dict keys of hashable types only (finding F21b) *)
+(* set items and dict keys of hashable types only (finding F21b) *)
 Fixpoint c21_target_ok (t : ty) : bool :=
   match t with
-  | TBase c => negb (cls_eqb c CBytes) && (cls_eqb c KAny || existsb (cls_eqb c) scalar_value_classes)
+  | TBase c => cls_eqb c KAny || existsb (cls_eqb c) scalar_value_classes
   | TList a | TTupleVar a | TMulti a => c21_target_ok a
   | TSet _ a => c21_target_ok a && hashable_ty a
   | TTuple ts | TUnion ts => forallb c21_target_ok ts
